@@ -92,6 +92,10 @@ def execute(prop: str, family: str, seed: Optional[int], prefix: Sequence[int] =
             harness_error = traceback.format_exc()
         except Exception:  # noqa: BLE001
             harness_error = traceback.format_exc()
+        except BaseException as e:  # noqa: BLE001 - e.g. a simulated CancelledError / abort escaping a family
+            if isinstance(e, (KeyboardInterrupt, SystemExit)):
+                raise
+            harness_error = traceback.format_exc()
     finally:
         timeseam.uninstall(seam)
         for fn in reversed(w.cleanup):
